@@ -85,14 +85,20 @@ class Reactor(composites.Composite):
         return "<{}: {} id:{}>".format(self.__class__.__name__, self.name, id(self))
 
     def add(self, container):
-        composites.Composite.add(self, container)
+        # a second core is refused before the container becomes a child
         cores = [c for c in self.getChildren(deep=True) if isinstance(c, Core)]
+        cores += [
+            c
+            for c in [container] + container.getChildren(deep=True)
+            if isinstance(c, Core)
+        ]
+        if len(cores) > 1:
+            raise ValueError(
+                "Only 1 core may be specified at this time. Please adjust input. "
+                f"{len(cores)} cores found."
+            )
+        composites.Composite.add(self, container)
         if cores:
-            if len(cores) != 1:
-                raise ValueError(
-                    "Only 1 core may be specified at this time. Please adjust input. "
-                    f"{len(cores)} cores found."
-                )
             self.core = cores[0]
 
         if isinstance(container, ExcoreStructure):
